@@ -37,6 +37,12 @@ func (b *backend) set(s script) {
 	b.mu.Unlock()
 }
 
+func (b *backend) point() string {
+	b.mu.Lock()
+	defer b.mu.Unlock()
+	return b.cur.point
+}
+
 func (b *backend) at(point string) error {
 	b.mu.Lock()
 	defer b.mu.Unlock()
@@ -159,11 +165,28 @@ func (b *backend) funcs() *ociregistry.Funcs {
 			if err := b.at("Repositories"); err != nil {
 				return ociregistry.ErrorSeq[string](err)
 			}
+			if startAfter != "" {
+				// a later page of the listing fails (the clients of the chain ask for 2 items a page)
+				if err := b.at("RepositoriesLater"); err != nil {
+					return ociregistry.ErrorSeq[string](err)
+				}
+			}
+			if b.point() == "RepositoriesLater" {
+				return ociregistry.SliceSeq([]string{"foo/a", "foo/b", "foo/bar", "foo/c", "foo/d"})
+			}
 			return ociregistry.SliceSeq([]string{"foo/bar"})
 		},
 		Tags_: func(ctx context.Context, repo string, startAfter string) ociregistry.Seq[string] {
 			if err := b.at("Tags"); err != nil {
 				return ociregistry.ErrorSeq[string](err)
+			}
+			if startAfter != "" {
+				if err := b.at("TagsLater"); err != nil {
+					return ociregistry.ErrorSeq[string](err)
+				}
+			}
+			if b.point() == "TagsLater" {
+				return ociregistry.SliceSeq([]string{"t1", "t2", "t3", "t4", "t5"})
 			}
 			return ociregistry.SliceSeq([]string{"t1"})
 		},
@@ -280,7 +303,7 @@ func newChain() *chain {
 		rec := &recorder{}
 		srv := httptest.NewServer(rec.wrap(ociserver.New(inner, nil)))
 		u, _ := url.Parse(srv.URL)
-		cl, err := ociclient.New(u.Host, &ociclient.Options{Insecure: true})
+		cl, err := ociclient.New(u.Host, &ociclient.Options{Insecure: true, ListPageSize: 2})
 		if err != nil {
 			panic(err)
 		}
